@@ -18,6 +18,7 @@ import (
 	"github.com/DataDog/datadog-traceroute/cache"
 	"github.com/DataDog/datadog-traceroute/icmp"
 	"github.com/DataDog/datadog-traceroute/packets"
+	"github.com/DataDog/datadog-traceroute/result"
 	"github.com/DataDog/datadog-traceroute/reversedns"
 
 	"verif/props/core"
@@ -241,6 +242,7 @@ func scenarios(tier string) []Scn {
 		out = append(out, Scn{Kind: "rt2", RT: &r, Bound: 1, Name: "two-requests-at-once/udp"})
 	}
 	out = append(out, Scn{Kind: "rdns", Bound: b + 1, Name: "reverse-dns/3-addresses"})
+	out = append(out, Scn{Kind: "rdns-dup", Bound: b + 1, Name: "reverse-dns/one-path-two-runs-qualified-names"})
 	out = append(out, Scn{Kind: "alloc", Bound: b + 1, Name: "allocators/3-callers"})
 	return out
 }
@@ -271,6 +273,26 @@ func runOne(sc *Scn, prefix []int, sig []uint32) *vsched.Exec {
 		defer func() { reversedns.LookupAddrFn = old }()
 		return vsched.Run(vsched.Config{Prefix: prefix, PrefixSig: sig}, nil, func() {
 			reversedns.GetReverseDnsForIPs([]net.IP{{198, 51, 100, 1}, {198, 51, 100, 2}, net.ParseIP("2001:db8::3")})
+		})
+	case "rdns-dup":
+		// the same address several times in one enrichment (several runs over one path), names as the real resolver returns
+		// them (fully qualified, trailing dot), and the caller reading the names it got: lookups answered from the entry
+		// another lookup has just cached hand out the same slice
+		cache.Cache.Flush()
+		old := reversedns.LookupAddrFn
+		reversedns.LookupAddrFn = func(ctx context.Context, a string) ([]string, error) {
+			vsched.Yield("rdns")
+			return []string{"host-" + a + ".example.net.", "alias-" + a + ".example.net."}, nil
+		}
+		defer func() { reversedns.LookupAddrFn = old }()
+		return vsched.Run(vsched.Config{Prefix: prefix, PrefixSig: sig, DelayBounded: true}, nil, func() {
+			doc := &result.Results{Traceroute: result.Traceroute{Runs: []result.TracerouteRun{{}, {}}}}
+			for i := range doc.Traceroute.Runs {
+				doc.Traceroute.Runs[i].Destination.IPAddress = net.IP{203, 0, 113, 9}
+				doc.Traceroute.Runs[i].Hops = []*result.TracerouteHop{{TTL: 1, IPAddress: net.IP{198, 51, 100, 1}}, {TTL: 2, IPAddress: net.IP{203, 0, 113, 9}, IsDest: true}}
+			}
+			doc.EnrichWithReverseDns()
+			proto.CallerSerialises(doc)
 		})
 	case "alloc":
 		return vsched.Run(vsched.Config{Prefix: prefix, PrefixSig: sig}, nil, func() {
